@@ -142,3 +142,14 @@ Theorem T01e_python_evaluator_sums : forall (kids : list R) (terms : list (R * R
   xsum (map XR kids) = XR (py_bioMultSum kids) /\ xcondsum (flat_vals terms) = XR (py_ConditionalSum terms).
 Proof. intros. split; [apply py_bioMultSum_sem|apply py_ConditionalSum_sem]. Qed.
 Print Assumptions T01e_python_evaluator_sums.
+
+(* T01e (logit). LogLogit.get_value, transcribed in Gen/PyLogit.v after its source matched the statement-by-statement template
+   on this run: whenever the pure-Python evaluator returns (a number or minus infinity), that is the value of the reference
+   semantics of the logit node; it refuses (None) exactly where the method raises. *)
+From BV Require Import Gen.PyLogit Proofs.PyLogitP.
+Theorem T01e_python_evaluator_loglogit : forall (c : Z) (uk : list Z) (us : list R) (ak : list Z) (avs : list R) (x : xval),
+  List.length us = List.length uk -> List.length avs = List.length ak ->
+  py_LogLogit c uk us ak avs = Some x ->
+  xloglogit uk ak (XR (IZR c) :: map XR us ++ map XR avs) = x.
+Proof. exact py_LogLogit_sem. Qed.
+Print Assumptions T01e_python_evaluator_loglogit.
